@@ -30,6 +30,19 @@ CHECKS = {
         'Subject unchanged, and every observer callable is destroyed exactly once. Skeletons are enumerated (cube-and-conquer), data is solved for.',
    note=TB + 'model STL in /verif/stl (forward_list, set, function, unique_ptr) is environment, not code under test; exceptions lowered to a hook (no unwinding); skeleton length and observer count bounded.',
    technique='SAT-based bounded model checking (CBMC) per operation skeleton (cube) of clang-lowered Subject code over a model STL', design='4/C05'),
+ 'C10': dict(
+   text='Bounded model checking of the real Subject headers with callbacks that unsubscribe themselves or others, subscribe new observers, mute/unmute, invalidate, or call notify again (depth 1) during a round: '
+        'for every cube (1..3 observers, action kind/target/firing round per callback, initial mute flags where they decide whether a shape-changing action runs) CBMC checks the call log against a reference simulation of the '
+        'round (removed before turn => skipped, added => next round, round continues), handle validity, exact destruction of callables, and use-after-free/bounds on every observer object; argument values (and mute flags '
+        'of shape-neutral cubes) are symbolic. Counterexamples replayed under ASan on the g++ build.',
+   note=TB + 'model STL; cubes enumerate everything that changes the heap shape (CBMC cannot keep heap shapes symbolic), so the solver decides over data only; >3 initial observers, nesting >1 and multi-action callbacks are outside.',
+   technique='SAT-based bounded model checking (CBMC) per callback-action cube of clang-lowered Subject code, reference-simulation oracle', design='4/C10'),
+ 'C16': dict(
+   text='Bounded model checking of the real Observable.h (+Subject stack) for int, short (incl. *=, /=), float with a tolerance comparator, and a model std::string: for every operator sequence up to the stated length, '
+        '1-2 subscribers and an optional unsubscribe, CBMC decides over the initial value and every operand that subscribers are notified exactly when the Eq says the value changed (always for ++/--), once each, by reference '
+        'to the stored post-operation value, that an Eq-equal assignment leaves the stored bits untouched, and that value() equals a shadow variable updated with the same C++ operator.',
+   note=TB + 'value ranges bounded so that the documented no-overflow precondition holds; float *= and /= not encoded; string instance uses the fixed-capacity model string with concrete operand lengths.',
+   technique='SAT-based bounded model checking (CBMC) per operator-sequence cube of clang-lowered Observable code, symbolic operands', design='4/C16'),
 }
 REASON_WIP = 'check not built yet (work in progress, see DESIGN.md section 7)'
 m = {"version": 1, "setup_cmd": "./vf setup",
